@@ -223,6 +223,7 @@ type Result struct {
 	Failures    []Failure      `json:"failures"`
 	Notes       []string       `json:"notes"`
 	seen        map[string]bool
+	firstKeys   []string // fallback samples: identifiers of the first cases
 }
 
 func NewResult(prop, tier string, seed uint64) *Result {
@@ -235,6 +236,13 @@ func (r *Result) Case(key string, nontrivial bool, distKeys ...string) {
 	r.mu.Lock()
 	defer r.mu.Unlock()
 	r.Evaluations++
+	if len(r.firstKeys) < 3 && key != "" {
+		k := key
+		if len(k) > 600 {
+			k = k[:600] + "..."
+		}
+		r.firstKeys = append(r.firstKeys, k)
+	}
 	if nontrivial && !r.seen[key] {
 		r.seen[key] = true
 		r.Nontrivial++
@@ -276,6 +284,11 @@ func (r *Result) NFailures() int { r.mu.Lock(); defer r.mu.Unlock(); return len(
 func (r *Result) Write(path string) error {
 	r.mu.Lock()
 	defer r.mu.Unlock()
+	if len(r.Samples) == 0 {
+		for _, k := range r.firstKeys {
+			r.Samples = append(r.Samples, map[string]string{"case": k})
+		}
+	}
 	sort.SliceStable(r.Failures, func(i, j int) bool { return r.Failures[i].Kind > r.Failures[j].Kind })
 	b, err := json.MarshalIndent(r, "", " ")
 	if err != nil {
